@@ -765,3 +765,127 @@ Example C01_writer_snappy_nonvacuous :
   | None => False
   end.
 Proof. vm_compute. split; reflexivity. Qed.
+
+(* ------------------------------------------------------------------------------------------------------------------
+   (P) PREORDER COMPARERS.  LevelDB's Comparer only has to define a total order in which keys that compare equal ARE
+   the same user key; it need not be injective (ASCII-case-insensitive order; goleveldb's own test suite has
+   numberComparer).  comparer_ok (Base/Order.v) additionally demands cmp a b = Eq <-> a = b; comparer_pre_ok
+   (Base/OrderPre.v) replaces that field by reflexivity and compatibility of Eq with the order.  The theorems below are
+   the C01 chain (1)-(4) re-proved from comparer_pre_ok alone: "entry e has user key k" reads cmp c (e_uk e) k = Eq
+   (Lsm.vis and History.a_get already read it so), the well-formedness conditions speak about equivalence classes
+   (wf_state_pre: uniqE, newer_thanE; uniq_inE), and the plain map is keyed by the class (a Put of another spelling of a
+   stored key overwrites it).  The theorems (1)-(4) above are their special cases (C01_get_correct_is_corollary).
+   What still assumes the injective contract comparer_ok: the byte-level refinement (5) and everything below it
+   (memdb, table, block, batch levels), see props/C01.json. *)
+From GL Require Import Base.OrderPre Codec.CiCmp Codec.CiCmpProofs Lsm.CompactPre Lsm.LsmPreProofs Lsm.CompactPreProofs
+  Lsm.HistoryPreProofs Lsm.ReorgPreProofs Lsm.WfPreProofs.
+
+Theorem C01_comparer_ok_is_pre : forall c, comparer_ok c -> comparer_pre_ok c.
+Proof. exact comparer_ok_pre. Qed.
+Print Assumptions C01_comparer_ok_is_pre.
+
+(* (1p) DB.get / version.get on a well-formed layout returns the newest entry of k's CLASS with seq <= s among all
+   stored entries, for every preorder comparer ... *)
+Theorem C01_get_correct_pre : forall c, comparer_pre_ok c -> forall p, kparams_ok p -> forall st k s,
+  wf_state_pre c p st -> lsm_get c p st k s = group_res p (newest c k s (all_entries st) None).
+Proof. exact get_correct_pre. Qed.
+Print Assumptions C01_get_correct_pre.
+
+(* ... so every spelling of a user key reads the same *)
+Theorem C01_get_spelling_irrelevant : forall c, comparer_pre_ok c -> forall p, kparams_ok p -> forall st k k' s,
+  wf_state_pre c p st -> cmp c k k' = Eq -> lsm_get c p st k s = lsm_get c p st k' s.
+Proof. exact get_spelling_irrelevant. Qed.
+Print Assumptions C01_get_spelling_irrelevant.
+
+(* the injective theorem (1) is the special case *)
+Theorem C01_get_correct_is_corollary : forall c, comparer_ok c -> forall p, kparams_ok p -> forall st k s,
+  wf_state c p st -> lsm_get c p st k s = group_res p (newest c k s (all_entries st) None).
+Proof. exact get_correct_from_pre. Qed.
+Print Assumptions C01_get_correct_is_corollary.
+
+(* (2p) reads at the current sequence number = the class-keyed plain map *)
+Theorem C01_get_is_map_pre : forall c, comparer_pre_ok c -> forall p ops k,
+  hops_ok c p (h_init) ops ->
+  store_get c p (hrun ops) k (h_seq (hrun ops)) = a_get c k (map_of c p ops).
+Proof. exact get_is_map_pre. Qed.
+Print Assumptions C01_get_is_map_pre.
+
+Theorem C01_get_is_map_spelling : forall c, comparer_pre_ok c -> forall p ops k k',
+  hops_ok c p (h_init) ops -> cmp c k k' = Eq ->
+  store_get c p (hrun ops) k (h_seq (hrun ops)) = store_get c p (hrun ops) k' (h_seq (hrun ops)).
+Proof. exact get_is_map_spelling. Qed.
+Print Assumptions C01_get_is_map_spelling.
+
+(* (3p) the reorganisations are admissible *)
+Theorem C01_rearrangement_ok_pre : forall c, comparer_pre_ok c -> forall p h s',
+  uniq_inE c (h_store h) -> same_elems (h_store h) s' -> reorg_ok c p h s'.
+Proof. exact rearrangement_ok_pre. Qed.
+Print Assumptions C01_rearrangement_ok_pre.
+
+Theorem C01_compaction_reorg_ok_pre : forall c, comparer_pre_ok c -> forall p, kparams_ok p ->
+  forall minSeq base, (minSeq < keyMaxSeq p)%N -> forall I O,
+  kinds_ok p I -> uniqE c I -> uniq_inE c (I ++ O) ->
+  (forall o i, In o O -> In i I -> cmp c (e_uk o) (e_uk i) = Eq ->
+     (e_seq i < e_seq o)%N \/ ((e_seq o < e_seq i)%N /\ base (e_uk i) = false)) ->
+  forall h s', same_elems (h_store h) (I ++ O) ->
+  same_elems s' (drop_run c p minSeq base None (isort c I) ++ O) ->
+  (forall q, protected h q -> (minSeq <= q)%N) ->
+  reorg_ok c p h s'.
+Proof. exact compaction_reorg_ok_pre. Qed.
+Print Assumptions C01_compaction_reorg_ok_pre.
+
+(* (4p) the class-based certificates the correspondence check evaluates under the non-injective comparer (id 4) *)
+Theorem C01_wf_versioncb_sound : forall c, comparer_pre_ok c -> forall p lvls,
+  wf_versioncb c p lvls = true ->
+  wf_state_pre c p {| st_mem := []; st_frozen := []; st_aux := []; st_levels := lvls |}.
+Proof. exact wf_versioncb_sound. Qed.
+Print Assumptions C01_wf_versioncb_sound.
+
+Theorem C01_certificatec_sound : forall c, comparer_pre_ok c -> forall p, kparams_ok p ->
+  forall minSeq deeper I O outs,
+  compaction_certc c p minSeq deeper I O outs = true ->
+  concat outs = drop_run c p minSeq (is_base c deeper) None (isort c I) ->
+  forall k s, (minSeq <= s)%N ->
+  History.res p (newest c k s (concat outs ++ O) None) = History.res p (newest c k s (I ++ O) None).
+Proof. exact certificatec_sound. Qed.
+Print Assumptions C01_certificatec_sound.
+
+(* Non-vacuity with the harness's non-injective comparer (id 4, ASCII case-insensitive): it satisfies the preorder
+   contract and NOT the injective one ("Key" = [75;101;121], "KEY" = [75;69;89], "key" = [107;101;121] are one key). *)
+Example C01_casefold_is_preorder_not_injective :
+  comparer_pre_ok cicmp /\ ~ comparer_ok cicmp /\ cmp cicmp [75; 101; 121]%N [75; 69; 89]%N = Eq.
+Proof. split; [exact cicmp_pre_ok|]. split; [exact cicmp_not_injective|exact cicmp_Key_KEY]. Qed.
+
+Definition cx_e (u : bytes) (s kd v : N) : entry := {| e_uk := u; e_seq := s; e_kind := kd; e_val := [v] |}.
+Definition cx_Key : bytes := [75; 101; 121]%N.
+Definition cx_KEY : bytes := [75; 69; 89]%N.
+Definition cx_key : bytes := [107; 101; 121]%N.
+(* "Key" was put (seq 3) and flushed down to level 1; then "KEY" deleted (seq 7, level 0); "a" untouched *)
+Definition cx_levels : list (list table) :=
+  [ [ {| t_num := 9; t_entries := [cx_e cx_KEY 7 0 0] |} ];
+    [ {| t_num := 5; t_entries := [cx_e [97]%N 2 1 20; cx_e cx_Key 3 1 30] |} ] ].
+Definition cx_st : lstate := {| st_mem := []; st_frozen := []; st_aux := []; st_levels := cx_levels |}.
+
+Example C01_casefold_nonvacuous :
+  wf_versioncb cicmp kp cx_levels = true /\
+  (* every spelling of the deleted key reads "not found" now, and the old value at sequence number 5 *)
+  api_of (lsm_get cicmp kp cx_st cx_key 9) = None /\ api_of (lsm_get cicmp kp cx_st cx_Key 9) = None /\
+  api_of (lsm_get cicmp kp cx_st cx_KEY 5) = Some [30]%N /\ api_of (lsm_get cicmp kp cx_st [65]%N 9) = Some [20]%N /\
+  (* the full compaction (no snapshot: minSeq = 7, everything at base level) drops the marker AND the old value *)
+  drop_run cicmp kp 7 (fun _ => true) None (isort cicmp [cx_e cx_KEY 7 0 0; cx_e [97]%N 2 1 20; cx_e cx_Key 3 1 30]) =
+    [cx_e [97]%N 2 1 20] /\
+  (* the class-keyed plain map: Put "Key", Delete "KEY" *)
+  a_get cicmp cx_key (map_of cicmp kp [HWrite [(1, cx_Key, [30])]%N; HWrite [(0, cx_KEY, [])]%N]) = None /\
+  a_get cicmp cx_KEY (map_of cicmp kp [HWrite [(1, cx_Key, [30])]%N; HWrite [(1, cx_key, [31])]%N]) = Some [31]%N.
+Proof. repeat split; vm_compute; reflexivity. Qed.
+
+(* The seeded change C01_r2 in the model: deciding "same user key as the previous entry" by BYTE equality (the drop
+   rule run with the bytewise comparer's equality on the cicmp-sorted merge) keeps the old value of the deleted key
+   while the marker is dropped at base level: the read of the deleted key returns the old value.  The rule with the
+   user comparer deciding (drop_rule_sound_pre) does not. *)
+Example C01_bytes_equal_drop_rule_refuted :
+  let I := isort cicmp [cx_e cx_KEY 7 0 0; cx_e cx_Key 3 1 30] in
+  CompactProofs.res kp (newest cicmp cx_KEY 7 I None) = None /\
+  CompactProofs.res kp (newest cicmp cx_KEY 7 (drop_run cicmp kp 7 (fun _ => true) None I) None) = None /\
+  CompactProofs.res kp (newest cicmp cx_KEY 7 (drop_run bytewise kp 7 (fun _ => true) None I) None) = Some [30]%N.
+Proof. repeat split; vm_compute; reflexivity. Qed.
